@@ -1,6 +1,7 @@
 package main
 
 import (
+	"verif/internal/mem"
 	"verif/internal/rep"
 )
 
@@ -31,6 +32,13 @@ func checkC02(c *Ctx, r *rep.Report) {
 	ruleGenerateKey(r, p, rl)
 	ruleUsesOnly(r, p, "H-message-only-hashed", "signCore", paths, "the message", isLeaf("P1"), map[string]bool{"hash.Write": true, "hash.Sum": true}, throughOps)
 	rulePurity(c, r, "sign")
+	// keys are values: accessors and constructors return fresh memory, so later use of a key cannot depend on what the
+	// caller does with a returned seed / public key or with the seed buffer it passed in
+	{
+		an := mem.New()
+		ruleFreshness(r, p, an, nil)
+		ruleNoParamWrites(r, p, an)
+	}
 	scalarLayer(c, r)
 }
 
@@ -81,6 +89,8 @@ func checkC09(c *Ctx, r *rep.Report) {
 	ruleVerifyWrappers(r, p, rl, fl)
 	ruleNoPanic(r, p, rl)
 	ruleBatchAll(c, r, p, rl, fl)
+	// the predicate is a function of its argument: no package-level scratch
+	ruleGlobalWrites(r, p, mem.New())
 }
 
 func checkC10(c *Ctx, r *rep.Report) {
@@ -95,6 +105,8 @@ func checkC10(c *Ctx, r *rep.Report) {
 		ruleEncode(r, p)
 		ruleConversions(r, p)
 		ruleBitOrigin(r, p, "curve25519")
+		ruleFieldConstants(r, p) // d, 2d, sqrt(-1) and the base point as written, on this layout
+		ruleOutputDefined(r, p)
 	}
 }
 
@@ -145,6 +157,10 @@ func checkC06(c *Ctx, r *rep.Report) {
 	ruleNoPanic(r, p, rl)
 	ruleVerifyCore(r, p, rl, fl, "G-verify")
 	ruleBatchNeutral(r, p, rl)
+	// "for every entropy stream": the final ladder of the multi-scalar routine must neither panic on an all-zero scalar
+	// nor run on an accumulator that is not a group element
+	ruleZeroScanGuard(r, p, rl)
+	ruleMsmFinal(r, p, rl)
 }
 
 func checkC17(c *Ctx, r *rep.Report) {
@@ -164,6 +180,7 @@ func checkC17(c *Ctx, r *rep.Report) {
 	ruleHeapSeed(r, p, rl.Msm)
 	ruleUnrolledChains(r, p)
 	ruleZeroScanGuard(r, p, rl)
+	ruleMsmFinal(r, p, rl)
 	// the predicates that steer the Bos-Coster loop, on both limb layouts
 	for _, cfg := range c.Configs() {
 		if cfg == "amd64-noasm" {
@@ -171,6 +188,7 @@ func checkC17(c *Ctx, r *rep.Report) {
 		}
 		if q, _ := c.mustLoad(r, cfg); q != nil {
 			ruleVartimePredicates(r, q)
+			ruleFieldConstants(r, q) // the base point in slot 0 (all four coordinates) on this layout
 		}
 	}
 }
